@@ -573,14 +573,31 @@ def check_dtype_flow(repo):
     fuse_core = repo.find("abelian_core.AbelianArray._fuse_core")
     ex = _assigned_from(fuse_core, lambda v: _is_call_to(v, "self.get_any_array"))
     obs.append(ob("dtype_flow._fuse_core.example_block_from_operand", bool(ex), "no example array taken from the operand (self.get_any_array())", fuse_core.lineno))
-    # a dict K with K["dtype"] = <example>.dtype
+    # a dict K with K["dtype"] = <example>.dtype, or = an expression that combines the dtypes of ALL stored blocks
+    # (a generator over self._blocks.values() reading .dtype of its loop variable, e.g. folded with promote_types)
+    def _dtype_of_stored_blocks(v):
+        gens = [g for g in ast.walk(v) if isinstance(g, ast.GeneratorExp) and len(g.generators) == 1 and ast.unparse(g.generators[0].iter) in ("self._blocks.values()", "self.blocks.values()") and isinstance(g.generators[0].target, ast.Name)]
+        if len(gens) != 1:
+            return False
+        var = gens[0].generators[0].target.id
+        reads = [a for a in ast.walk(v) if isinstance(a, ast.Attribute) and a.attr == "dtype"]
+        return bool(reads) and all(isinstance(a.value, ast.Name) and a.value.id == var for a in reads) and ast.unparse(gens[0].elt) == f"{var}.dtype"
+
     kdicts = set()
+    unrecognised = False
     for n in ast.walk(fuse_core):
         if isinstance(n, ast.Assign) and len(n.targets) == 1 and isinstance(n.targets[0], ast.Subscript):
             t = n.targets[0]
-            if isinstance(t.value, ast.Name) and is_const(t.slice, "dtype") and isinstance(n.value, ast.Attribute) and n.value.attr == "dtype" and isinstance(n.value.value, ast.Name) and n.value.value.id in ex:
-                kdicts.add(t.value.id)
-    obs.append(ob("dtype_flow._fuse_core.zeros_kwargs_dtype_from_example", bool(kdicts), "dtype of the zero blocks is not taken from the example block", fuse_core.lineno))
+            if isinstance(t.value, ast.Name) and is_const(t.slice, "dtype"):
+                from_example = isinstance(n.value, ast.Attribute) and n.value.attr == "dtype" and isinstance(n.value.value, ast.Name) and n.value.value.id in ex
+                if from_example or _dtype_of_stored_blocks(n.value):
+                    kdicts.add(t.value.id)
+                else:
+                    unrecognised = True
+    # not recognised syntactically (e.g. the keyword arguments are built by a helper): undecided here -- the contract
+    # C05._fuse_core (contracts/fuse_entry.py) interprets whatever code builds them
+    verdict = True if kdicts and not unrecognised else (False if unrecognised else None)
+    obs.append(ob("dtype_flow._fuse_core.zeros_kwargs_dtype_from_operand_blocks", verdict, "dtype of the zero blocks is not taken from the operand's blocks" if unrecognised else "zeros keyword arguments not built in place (decided by the contract C05._fuse_core instead)", fuse_core.lineno))
     backends = _assigned_from(fuse_core, lambda v: _is_call_to(v, "ar.infer_backend") and v.args and isinstance(v.args[0], ast.Name) and v.args[0].id in ex)
     zfns = _assigned_from(fuse_core, lambda v: _is_call_to(v, "ar.get_lib_fn") and len(v.args) == 2 and is_const(v.args[1], "zeros") and isinstance(v.args[0], ast.Name) and v.args[0].id in backends)
     obs.append(ob("dtype_flow._fuse_core.zeros_fn_from_example_backend", bool(zfns), "zeros function not resolved from the operand's backend", fuse_core.lineno))
@@ -592,6 +609,8 @@ def check_dtype_flow(repo):
         zpos = [i for i, a in enumerate(c.args) if isinstance(a, ast.Name) and a.id in zfns]
         kpos = [i for i, a in enumerate(c.args) if isinstance(a, ast.Name) and a.id in kdicts]
         okc = len(zpos) == 1 and len(kpos) == 1
+        if not kdicts and len(zpos) == 1:
+            okc = None  # which argument carries the keyword arguments is unknown here (see above): undecided
         obs.append(ob(f"dtype_flow._fuse_core.passes_zeros_fn_and_kwargs_to.{c.func.id}", okc, "zeros function / dtype kwargs not forwarded to the strategy", c.lineno))
         if not okc:
             continue
